@@ -383,6 +383,62 @@ pub fn run_check(ctx: &Ctx) -> i32 {
             }
         });
     };
+    // (b') scaled documents: offsets far from the start, tokens buffered across many writes
+    {
+        let docs = scaled_docs(quick);
+        par_for(docs.len(), 1, |i| {
+            if ctx.over_time() {
+                return;
+            }
+            let (label, raw) = &docs[i];
+            for p in &soup_cfgs {
+                let (m0, reference, calls) = check_soup(p, raw, &Sched::whole(), None);
+                ctx.exec(calls);
+                let report = |msg: String, s: &Sched| {
+                    let case = json!({"kind": "F", "document": label, "cfg": p.cfg, "input_hex": hex(raw), "input_lossy": lossy(&raw[..raw.len().min(100)]), "sched": s});
+                    let c2 = case.clone();
+                    ctx.violation(msg, case, &|| replay(&c2));
+                };
+                if let Some(m) = m0 {
+                    report(m, &Sched::whole());
+                    continue;
+                }
+                // every located range must show the right kind of bytes
+                for (_, kind, loc, attrs) in &reference {
+                    let bytes = &raw[loc.0..loc.1];
+                    let ok = match kind {
+                        0 => bytes.starts_with(b"<") && bytes.ends_with(b">") && !bytes.starts_with(b"</"),
+                        1 => bytes.starts_with(b"</") && bytes.ends_with(b">"),
+                        2 => bytes.starts_with(b"<!--") || bytes.starts_with(b"<!") || bytes.starts_with(b"<?") || bytes.starts_with(b"</"),
+                        3 => bytes.len() >= 9 && bytes[..9].eq_ignore_ascii_case(b"<!doctype"),
+                        _ => true,
+                    };
+                    if !ok {
+                        report(format!("located range {:?} of kind {kind} shows {:?}", loc, lossy(&bytes[..bytes.len().min(40)])), &Sched::whole());
+                        break;
+                    }
+                    let _ = attrs;
+                }
+                for s in &scaled_scheds(raw.len(), quick) {
+                    let (m, _, calls) = check_soup(p, raw, s, Some(&reference));
+                    ctx.exec(calls);
+                    ctx.validated(1);
+                    if let Some(m) = m {
+                        report(m, s);
+                    }
+                }
+                if !reference.is_empty() {
+                    ctx.nontrivial.insert(digest(&(raw, p.cfg.handlers.len())));
+                }
+            }
+            if i % 97 == 3 {
+                ctx.sample(json!({"kind": "scaled", "document": label}));
+            }
+        });
+        if !ctx.capped.load(std::sync::atomic::Ordering::Relaxed) {
+            ctx.level_done(&format!("(b') {} scaled documents (sizes around 12, 32, 64, 256, 1024, 2048) x 2 configs x fixed chunk sizes + cuts around the thresholds: locations independent of chunking, ranges show the right kind of token", docs.len()));
+        }
+    }
     let l1 = Levels { l1: true, l2_max_len: 0, bytewise: true, empties: false };
     if quick {
         soup("(b) F<=2 x 2 configs x L1,L2,LB", Space::Frags { k, max: 2 }, Levels { l1: true, l2_max_len: 16, bytewise: true, empties: true });
